@@ -469,6 +469,22 @@ func (w *world) doOp(idx int, name string, op sim.Op) {
 	case "jump":
 		zsimrt.Sleep("task:jump", time.Duration(op.D))
 		return
+	case "fill":
+		// op.N distinct keys S0, S1, ... are put into the cache in one go (set-up of a big
+		// population: no scheduling points inside, the bookkeeping of the oracles as usual)
+		zsimrt.Unchecked(func() {
+			for i := int64(0); i < op.N; i++ {
+				if _, err := w.cache.Get(fmt.Sprintf("%s%d", op.S, i)); err != nil {
+					e.Violate(w.prop(), "unexpected_error", "GetOrCreate failed while filling: %v", err)
+					return
+				}
+			}
+		})
+		for _, id := range r.created {
+			w.retStamp[id] = e.Stamp()
+		}
+		e.Logf("%s fill %d -> done", name, op.N)
+		return
 	case "get":
 		now := time.Now()
 		var id int
